@@ -217,6 +217,13 @@ StreamOk(res, expectErr, nitems, expected, chunk, maxItem, peak, maxBufLen, maxB
   /\ maxBufCap <= 2 * (8 * chunk + 4 * maxItem + 4096)
   /\ peak <= 24 * chunk + 64 * maxItem + 262144
 
+\* one request of `want` bytes on a fresh reader over a stream of `total` bytes that neither fails nor is interrupted
+\* (C02: a request only falls short when the source really ended or failed; then the reader is complete)
+BigRequestOk(total, want, got, err, complete, panicked) ==
+  /\ ~panicked /\ ~err
+  /\ got <= total
+  /\ IF want <= total THEN got >= want ELSE got = total /\ complete
+
 \* measured heap of the same run without tracing (C05)
 HeapOk(peak, consumed, chunk, panicked) ==
   /\ ~panicked
